@@ -3,30 +3,30 @@ package main
 // Evaluation of contract expressions to SMT terms in a symbolic state.
 
 import (
-	"os"
 	"fmt"
 	"go/constant"
 	"go/token"
 	"go/types"
+	"os"
 	"regexp"
 	"strconv"
 	"strings"
 )
 
 type Env struct {
-	g      *Gen
-	fr     *Frame
-	st     *State
-	old    *State
-	vars   map[string]Val
-	params map[string]Val // initial parameter values: used when no current source value is known
-	pkg    *types.Package
-	useSrc bool
-	pos    token.Pos
+	g       *Gen
+	fr      *Frame
+	st      *State
+	old     *State
+	vars    map[string]Val
+	params  map[string]Val // initial parameter values: used when no current source value is known
+	pkg     *types.Package
+	useSrc  bool
+	pos     token.Pos
 	entrySt *State // state at loop entry, for atEntry(e)
-	headSt *State // loop-head state of the current iteration, for atHead(e)
-	loopIdx *Val // value of the hidden index of the range loop whose invariant is being evaluated
-	noHeap bool // pure-function bodies and lemmas: no memory access
+	headSt  *State // loop-head state of the current iteration, for atHead(e)
+	loopIdx *Val   // value of the hidden index of the range loop whose invariant is being evaluated
+	noHeap  bool   // pure-function bodies and lemmas: no memory access
 }
 
 func (g *Gen) envFor(fr *Frame, st *State) *Env {
@@ -1301,6 +1301,7 @@ func (g *Gen) lookupSrc(env *Env, name string) (types.Object, bool) {
 	}
 	return cand, cand != nil
 }
+
 var _ = token.NoPos
 
 func (g *Gen) ghostField(t types.Type, name string) ([]string, types.Type, bool) {
